@@ -104,6 +104,17 @@ class GateConfig(_configparser.ConfigParser):
 
 
 def _check_lazyinit(case, ctx):
+    """every case visits all lazily initialised tables in turn (the generated gate first)"""
+    fails = []
+    gates = [case["gate"]] + [g for g in LAZY_KEYS[:5] if g != case["gate"]]
+    for g in gates:
+        fails += _check_lazyinit_one(dict(case, gate=g), ctx)
+        if fails:
+            break
+    return fails
+
+
+def _check_lazyinit_one(case, ctx):
     """harness-owned schedule point: the first request after start-up is suspended inside the configuration lookup that
     feeds a lazily initialised shared table; a second complete request runs at that instant (what another thread of the
     threading server would do); both must get their solo replies."""
